@@ -442,6 +442,7 @@ static void enumerate(const std::string& key, const std::function<Rig()>& make_r
                     {
                         Fnv f; f.str(fk);
                         L.distinct.insert(f.h);
+                        L.sample("{\"fault\": " + jstr(fk) + ", \"exception_propagated\": " + (o1.fault ? "true" : "false") + "}", 4);
                     }
                     if (!o1.threw) L.violate(fk + "|swallowed", replay, "the operator threw at application " + num(k) + " but init()/compute() returned normally");
                     else if (!o1.fault) L.violate(fk + "|translated", replay, "a different exception left the solver: " + o1.other);
